@@ -77,7 +77,25 @@ type Client struct {
 	writeMu  sync.Mutex
 	paused   atomic.Bool
 	resume   chan struct{}
+	srv      *faultyConn
 }
+
+// faultyConn is the broker's end of the connection; it can be made to fail writes (a send that
+// errors, e.g. a write deadline on a congested link) while reads keep working.
+type faultyConn struct {
+	net.Conn
+	failWrites atomic.Bool
+}
+
+func (f *faultyConn) Write(b []byte) (int, error) {
+	if f.failWrites.Load() {
+		return 0, errors.New("injected: write to client failed")
+	}
+	return f.Conn.Write(b)
+}
+
+// FailBrokerWrites makes every write of the broker to this client fail (on) or work again (off).
+func (c *Client) FailBrokerWrites(on bool) { c.srv.failWrites.Store(on) }
 
 // Pause makes the client stop reading from its connection (a slow consumer: the transport's
 // back-pressure then blocks the broker's writes to it); Resume lets it read again.
@@ -93,8 +111,9 @@ func (c *Client) Resume() {
 
 // NewClient opens a connection to node (no CONNECT sent yet).
 func (w *World) NewClient(name string, node int, policy AckPolicy) *Client {
-	cEnd, sEnd := net.Pipe()
-	c := &Client{Name: name, w: w, Node: w.Node(node), conn: cEnd, enc: encoder.New(), Policy: policy, resume: make(chan struct{}, 1)}
+	cEnd, rawEnd := net.Pipe()
+	sEnd := &faultyConn{Conn: rawEnd}
+	c := &Client{srv: sEnd, Name: name, w: w, Node: w.Node(node), conn: cEnd, enc: encoder.New(), Policy: policy, resume: make(chan struct{}, 1)}
 	w.Clients = append(w.Clients, c)
 	c.Node.accept(sEnd)
 	go c.readLoop()
